@@ -352,6 +352,17 @@ def counter_sequence(chk, name="C19.counter.sequence"):
                 return [("val", None, s)]
             return LockHooks.cm_exit(self, eng_, s, cm, exc)
     eng.hooks = H()
+    if name == "C19.counter.sequence":
+        # the other two operations of the counter, under the same lock contract (read and written only inside the critical section)
+        for m_, delta in (("decrement", -1), ("get_current", 0)):
+            if cls.find_method(m_) is None:
+                continue
+            chk.function(f"threading.OrderedCounter.{m_}", "verified (lock contract at __enter__/__exit__)")
+            for k, v, s in eng.run(cls.find_method(m_), [self_], st=st.fork()):
+                chk.paths += 1
+                ok = k == "val" and "at_entry" in s.ghost and "at_exit" in s.ghost
+                chk.prove(f"C19.counter.{m_}", s.pc, z3.And(z3.BoolVal(ok), s.ghost["at_exit"] == s.ghost["at_entry"] + delta, zint(v) == s.ghost["at_entry"] + delta) if ok else F,
+                          desc=f"{m_} {'leaves the counter unchanged' if delta == 0 else 'lowers the counter by one'} and returns the value it has inside the critical section (never a value another holder wrote after the release)")
     for k, v, s in eng.run(cls.find_method("increment"), [self_], st=st):
         chk.paths += 1
         ok = k == "val" and "at_entry" in s.ghost and "at_exit" in s.ghost
